@@ -30,12 +30,23 @@ def pool(tier):
         return _CACHE[('pool', tier)]
     leaves = pools.leaves_full()
     by = dict(leaves)
-    if tier == 'quick':
-        small = [(k, by[k]) for k in ('null', '0', '1', "'a'", 'true')]
-        v = pools.closed_pool(leaves, small)
-    else:
-        small = [(k, by[k]) for k in ('null', 'false', '0', '1.0', '2', "'a'", "'b'", 'date', 'fnA')]
-        v = pools.closed_pool(leaves, small)
+    small = [(k, by[k]) for k in ('null', 'false', '0', '1.0', '2', "'a'", "'b'", 'date', 'fnA')]
+    v = pools.closed_pool(leaves, small)
+    if tier == 'thorough':
+        # depth 2 and 3 over a wider inner set: all ordered pairs of 14 chosen containers, and their wrappings
+        names = ['[]', '[null]', '[0]', '[1.0]', "['a']", '[0,1.0]', '[1.0,0]', '{}', '{a:null}', '{a:1.0}', '{b:1.0}', '{a:0,b:1.0}', '[date]', '[fnA]']
+        d = dict(v)
+        inner = [(n, d[n]) for n in names]
+        have = {lab for lab, _ in v}
+        extra = []
+        for la, a in inner:
+            for lb, b in inner:
+                extra.append((f'[{la},{lb}]', [a, b]))
+                extra.append((f'{{a:{la},b:{lb}}}', {'a': a, 'b': b}))
+            extra.append((f'[[{la}]]', [[a]]))
+            extra.append((f'{{a:{{a:{la}}}}}', {'a': {'a': a}}))
+            extra.append((f'[[{la}],1.0]', [[a], 1.0]))
+        v = v + [(lab, val) for lab, val in extra if lab not in have]
     _CACHE[('pool', tier)] = v
     return v
 
